@@ -151,6 +151,9 @@ FAILING_PROGRAMS = [
     b'[x for x in 5]', b'{[1]: 2}', b'{a: 1} < {a: 2}', b'null < null', b'std.sort([1, "a"])', b'local x = x; x',
     b'std.manifestJsonEx(function(x) x, " ")', b'function(x) x', b'std.assertEqual(1, 2)', b'1 << -1', b'1 << 2000',
     b'std.char(-1)', b'std.makeArray(-1, function(i) i)', b'std.base64Decode("!")', b'std.parseJson("{")', b'std.parseYaml("a: [")',
+    # two-label diagnostics whose secondary label comes EARLIER in the file than the primary one
+    b'local a = 1,\n      b = 2,\n      a = 3;\na', b'{\n  a: 1,\n  b: 2,\n  a: 3,\n}', b'function(x,\n         y,\n   x) 1',
+    b'local f(p, q,\n  p) = 1; f', b'{ local v = 1,\n  k: 2,\n  local v = 3 }', b'{a: 1, "a": 2}', b'local o = {\n  f(x, y, x): 1 }; o',
     # errors whose primary span consists of zero-display-width characters only (combining mark, ZWSP, ZWJ)
     b'\xcd\xa1', b'1 + \xe2\x80\x8b', b'e\xcc\x81', b'{a: 1}\n\xe2\x80\x8d', b'"a\xcd\xa1" + {}', b'/* \xcc\x81 */ \xcc\x81',
 ]
@@ -254,7 +257,14 @@ def check_diagnostics(run, impl_exe, cli, tier, rng):
                             if m.group(1) != path or int(m.group(2)) != el:
                                 problem = 'report names %s:%s:%s, primary span starts at line %d col %d' % (m.group(1), m.group(2), m.group(3), el, ec)
                             elif int(m.group(3)) != ec:
-                                run.count('diag_col_differs_from_char_count')
+                                # the column is a character count; only when the line prefix contains tabs,
+                                # wide or zero-width characters may the renderer's column legitimately differ
+                                start = int(a0, 16)
+                                prefix = src[src.rfind(b'\n', 0, start) + 1:start]
+                                if all(0x20 <= b < 0x7f for b in prefix):
+                                    problem = 'report names %s:%s:%s, primary span starts at line %d col %d' % (m.group(1), m.group(2), m.group(3), el, ec)
+                                else:
+                                    run.count('diag_col_differs_from_char_count(non-ascii prefix)')
                     if problem is None and crop is not None and ntrace > crop:
                         if ('%d items hidden' % (ntrace - crop)) not in plain:
                             problem = 'cropped trace (%d of %d) lacks the hidden-items note' % (crop, ntrace)
